@@ -39,10 +39,17 @@ pub open spec fn confined(p: PathBuf) -> bool { forall|i: int| 0 <= i < p.comps@
 
 #[derive(Clone, Copy)]
 pub struct TreeId { pub _opaque: u64 }
-pub struct Node { pub raw_name: Name, pub subtree: Option<TreeId> }
+// `Node.name` is the STORED (escaped) name; `Node::name()` decodes it (\\xNN, \\uNNNN ... escapes): an arbitrary,
+// uninterpreted function of the stored text -- so plain-ness of the stored text says nothing about the decoded name
+pub uninterp spec fn decode_name(stored: Name) -> Name;
+pub struct Node { pub name: Name, pub subtree: Option<TreeId> }
 impl Node {
     #[verifier::external_body]
-    pub fn name(&self) -> (r: Name) ensures r == self.raw_name, { unimplemented!() }   // unescaped name, arbitrary
+    pub fn name(&self) -> (r: Name) ensures r == decode_name(self.name), { unimplemented!() }
+}
+pub struct OsStr { pub _opaque: u8 }
+impl OsStr {
+    pub fn new(n: &Name) -> (r: &Name) ensures *r == *n, { n }   // OsStr::new(&string): same text
 }
 pub struct NodeIter { pub _opaque: u64 }   // std::vec::IntoIter<Node>
 impl NodeIter {
